@@ -252,6 +252,9 @@ theorem C08_eval_legal_example (X : List Name) (h2 : ∃ a ∈ X, ∃ b ∈ X, a
 dereference NULL: request list `a a c b` (replayed on the real code by the sort stream once the finding is listed) -/
 theorem C08_sort_strict_crash_witness : sortNodesWith false [0, 0, 2, 1] = .crash .sortNullChunk := by decide +kernel
 
+/-- `EntNode::lastSmaller` compares non-strictly (regenerated from entnode.cc; false before fix C08-2, da88f8a1) -/
+theorem C08_sort_guarded : sortNonStrict = true := by decide
+
 /-- `EntNode::sort` leaves an already ascending request list unchanged (both comparison variants, every list): aliases
 that do not disturb the order are harmless -/
 theorem C08_sort_ascending_unchanged (ns : Bool) (L : List Name) (h : L.Pairwise (· ≤ ·)) :
